@@ -1497,4 +1497,91 @@ Section K2.
         rewrite (perr_err F fzero in01 FORMAT_HAN Hsok). eauto.
   Qed.
 End K2.
+(* ---------------- a syntactic sufficient condition for "the budget attempt fails" ----------------
+   With budget_requires_close (the shipped parser), an attempt succeeds only if the right budget
+   bracket occurs somewhere after the left one.  So a term that starts with the budget's left bracket
+   (ASCII: the independent variable `$x`) is safe whenever no right bracket follows in the input. *)
+Section NoClose.
+  Variable F : Type.
+  Variable fread : str -> option F.
+  Variable fzero : F.
+  Variable in01 : F -> bool.
+  Variable E : efmt.
+  Hypothesis Htot : total_ok E = true.
+  Hypothesis Hfacts : state_facts_ok = true.
+  Hypothesis Hclose : budget_requires_close = true.
+
+  Definition suf (a b : str) : Prop := exists k, a = drop k b.
+  Lemma suf_refl a : suf a a.
+  Proof. now exists 0%nat. Qed.
+  Lemma suf_drop a b n : suf a b -> suf (drop n a) b.
+  Proof. intros [k ->]. exists (k + n)%nat. apply drop_drop. Qed.
+  Lemma suf_trans a b c : suf a b -> suf b c -> suf a c.
+  Proof. intros [k ->] H. now apply suf_drop. Qed.
+
+  Lemma skip_spaces_fuel_suf n : forall st : pstate F, suf (s_rest (skip_spaces_fuel F E n st)) (s_rest st).
+  Proof.
+    induction n as [|n IH]; intros st; cbn [skip_spaces_fuel]; [apply suf_refl|].
+    destruct (st_starts F (space_parse E) st); [|apply suf_refl].
+    eapply suf_trans; [apply IH|]. cbn [skip step s_rest]. apply suf_drop, suf_refl.
+  Qed.
+
+  Lemma floats_loop_suf fuel : forall n sep rb acc buf (st : pstate F),
+    match floats_loop F fread E fuel n sep rb acc buf st with
+    | POk _ st' => suf (s_rest st') (s_rest st)
+    | _ => True
+    end.
+  Proof.
+    induction fuel as [|fuel IH]; intros n sep rb acc buf st; cbn [floats_loop]; [exact I|].
+    destruct (can_consume F st && Nat.ltb (length acc) n); [|apply suf_refl].
+    destruct (s_rest st) as [|c r] eqn:Hr; [exact I|].
+    assert (Hrec : forall k acc' buf',
+              match floats_loop F fread E fuel n sep rb acc' buf' (step F k st) with
+              | POk _ st' => suf (s_rest st') (c :: r) | _ => True end).
+    { intros k acc' buf'. specialize (IH n sep rb acc' buf' (step F k st)).
+      destruct (floats_loop F fread E fuel n sep rb acc' buf' (step F k st)); try exact I.
+      eapply suf_trans; [exact IH|]. cbn [step s_rest]. rewrite Hr. apply suf_drop, suf_refl. }
+    destruct (st_starts F (space_parse E) st); [apply Hrec|].
+    destruct (is_float_char c); [apply Hrec|].
+    destruct (st_starts F sep st).
+    - destruct (fread buf); [apply Hrec | unfold perr; destruct (err_window_ok F st); exact I].
+    - destruct (st_starts F rb st); [|unfold perr; destruct (err_window_ok F st); exact I].
+      destruct (fread buf); rewrite Hr; apply suf_refl.
+  Qed.
+
+  Lemma no_occ_spec kw text : kw <> [] -> no_occ kw text = true -> forall a, suf a text -> starts kw a = false.
+  Proof.
+    intros Hkw H a [k ->]. unfold no_occ in H. rewrite forallb_forall in H.
+    destruct (Nat.le_gt_cases k (length text)) as [Hle|Hgt].
+    - apply negb_true_iff, H, in_seq. lia.
+    - assert (Hnil : drop k text = []).
+      { pose proof (drop_length k text) as Hl. destruct (drop k text); [reflexivity | cbn in Hl; lia]. }
+      rewrite Hnil. destruct kw; [congruence | reflexivity].
+  Qed.
+
+  Theorem budget_attempt_fails_no_close whole rest :
+    (length rest <= length whole)%nat -> task_budget_brackets_1 E <> [] ->
+    no_occ (task_budget_brackets_1 E) (drop (length (task_budget_brackets_0 E)) rest) = true ->
+    budget_attempt_fails F fread fzero in01 E whole rest = true.
+  Proof.
+    intros Hlen Hrb Hno. unfold budget_attempt_fails.
+    set (st := probe_state F whole rest).
+    assert (Hwf : wf F (length whole) st) by (split; cbn; lia).
+    pose proof (consume_budget_good F fread fzero in01 E Htot Hfacts (length whole) st Hwf) as Hg.
+    destruct (consume_budget F fread fzero in01 E st) as [u st'|st'| |] eqn:Hc; cbn [good] in Hg; try contradiction; [|reflexivity].
+    exfalso. revert Hc. unfold consume_budget, parse_floats. rewrite Hclose.
+    set (st1 := skip_and_spaces F E (task_budget_brackets_0 E) st).
+    assert (H1 : suf (s_rest st1) (drop (length (task_budget_brackets_0 E)) rest)).
+    { unfold st1, skip_and_spaces, skip_spaces. eapply suf_trans; [apply skip_spaces_fuel_suf|]. cbn. apply suf_refl. }
+    pose proof (floats_loop_suf (length (s_rest st1) + 3 + 1) 3 (task_budget_separator E) (task_budget_brackets_1 E) [] [] st1) as H2.
+    destruct (floats_loop F fread E _ 3 _ _ [] [] st1) as [l st2|st2| |]; cbn [pbind]; try discriminate.
+    destruct (negb (forallb in01 (pad F fzero 3 l))); [unfold perr; destruct (err_window_ok F st2); discriminate|].
+    destruct (mk_budget F in01 l); [|discriminate].
+    destruct (st_starts F (task_budget_brackets_1 E) (skip_spaces F E st2)) eqn:Hs;
+      [|unfold perr; destruct (err_window_ok F _); discriminate].
+    apply st_starts_true_starts in Hs.
+    rewrite (no_occ_spec _ _ Hrb Hno) in Hs; [discriminate|].
+    eapply suf_trans; [apply skip_spaces_fuel_suf|]. eapply suf_trans; [exact H2 | exact H1].
+  Qed.
+End NoClose.
 (*MARK*)
